@@ -778,6 +778,17 @@ class Interp:
             return 'GM2CALC_VERSION'
         raise Unsupported('unknown name %s at %s:%d' % (name, self.cur_file(), self.cur_line))
 
+    def file_var_in(self, f, s):
+        fr = Frame(None, None, f)
+        self.frames.append(fr)
+        try:
+            c = self.file_var(s)
+            if c is None:
+                raise EvalError('no file-scope variable ' + s)
+            return c.v
+        finally:
+            self.frames.pop()
+
     def file_var(self, s):
         files = []
         for fr in reversed(self.frames):
@@ -1506,6 +1517,8 @@ class Interp:
             fds = self.w.find(s)
             # free functions only (or static members)
             fds_free = [x for x in fds if x.cls is None or x.static]
+            cur0 = self.frames[-1].file if self.frames else None
+            fds_free = [x for x in fds_free if not (getattr(x, 'anon', False) and x.file != cur0 and x.file.endswith('.cpp'))]
             # prefer definitions from the current file (anonymous namespaces)
             if fds_free:
                 cur = self.frames[-1].file if self.frames else None
